@@ -963,3 +963,15 @@ def list_extensions(fl, target):
                 and st.targets[0].slice.lower is not None and canon(st.targets[0].slice.lower) == f"len({target})":
             out.append((n, st.value))
     return out
+
+
+def uncopy(e):
+    """the value a copy was taken of: list(X) / tuple(X) / X.copy() / copy(X) hold the same elements in the same order as X"""
+    while True:
+        if isinstance(e, ast.Call) and isinstance(e.func, ast.Name) and e.func.id in ("list", "tuple", "copy", "deepcopy") and len(e.args) == 1 and not e.keywords \
+                and not isinstance(e.args[0], ast.GeneratorExp):
+            e = e.args[0]
+        elif isinstance(e, ast.Call) and isinstance(e.func, ast.Attribute) and e.func.attr == "copy" and not e.args and not e.keywords:
+            e = e.func.value
+        else:
+            return e
